@@ -335,46 +335,114 @@ func checkC20(c *Check) {
 	// ---- R5
 	wf := watch
 	ffw := FactsOf(wf)
-	var wLk *ssa.Lookup
-	var wUpd *ssa.MapUpdate
-	for _, b := range wf.Blocks {
-		for _, ins := range b.Instrs {
-			switch x := ins.(type) {
-			case *ssa.Lookup:
-				if cl, _ := classOfMap(x.X); cl == "internal.FileWatcher.watchers[]" {
-					wLk = x
-				}
-			case *ssa.MapUpdate:
-				if cl, _ := classOfMap(x.Map); cl == "internal.FileWatcher.watchers[]" {
-					wUpd = x
-				}
-			}
-		}
-	}
 	okCancel := false
-	if wLk != nil && wUpd != nil && sameVal(wLk.Index, wUpd.Key) {
-		// a cancel() call on the looked-up watcher under ok == true, and the registration is not reachable
-		// from the `found` edge without passing it
-		found := extractOf(wLk, 1)
-		var cancel ssa.Instruction
-		for _, ci := range allCalls(wf) {
-			cc, ok := ci.(*ssa.Call)
-			if !ok || cc.Common().StaticCallee() != nil || cc.Common().IsInvoke() {
-				continue
+	{
+		// the lookup + cancel step and the registration step may each sit in WatchFile or in a helper it calls
+		type step struct {
+			fn   *ssa.Function
+			at   ssa.Instruction // instruction of WatchFile that performs the step (itself or the helper call)
+			key  ssa.Value       // key as seen from WatchFile
+			good bool
+			found ssa.Value
+		}
+		keyInWF := func(fn *ssa.Function, k ssa.Value, call ssa.CallInstruction) ssa.Value {
+			if fn == wf {
+				return k
 			}
-			if fieldNameOfLoad(resolveCell(stripConv(cc.Common().Value))) == "cancel" {
-				if v, k := ffw.At(cc).truth(found); k && v {
-					cancel = cc
+			for i, p := range fn.Params {
+				if ssa.Value(p) == stripConv(k) && call != nil && i < len(call.Common().Args) {
+					return call.Common().Args[i]
+				}
+			}
+			return nil
+		}
+		var cancelStep, regStep *step
+		cands := []*ssa.Function{wf}
+		callOf := map[*ssa.Function]ssa.CallInstruction{}
+		for _, ci := range allCalls(wf) {
+			if g := ci.Common().StaticCallee(); g != nil && pkgPathOf(g) == pkgInt && g.Blocks != nil && g != wf {
+				if _, dup := callOf[g]; !dup {
+					callOf[g] = ci
+					cands = append(cands, g)
 				}
 			}
 		}
-		if cancel != nil && found != nil {
-			hit := existsPath(wf, atomEnv{found: true}, func(i ssa.Instruction) bool { return i == ssa.Instruction(wUpd) }, func(i ssa.Instruction) bool { return i == cancel })
-			okCancel = hit == nil
+		for _, fn := range cands {
+			var wLk *ssa.Lookup
+			var wUpd *ssa.MapUpdate
+			for _, b := range fn.Blocks {
+				for _, ins := range b.Instrs {
+					switch x := ins.(type) {
+					case *ssa.Lookup:
+						if cl, _ := classOfMap(x.X); cl == "internal.FileWatcher.watchers[]" {
+							wLk = x
+						}
+					case *ssa.MapUpdate:
+						if cl, _ := classOfMap(x.Map); cl == "internal.FileWatcher.watchers[]" {
+							wUpd = x
+						}
+					}
+				}
+			}
+			var at ssa.Instruction
+			if fn != wf {
+				at = callOf[fn]
+			}
+			if wLk != nil {
+				// a cancel() call on the looked-up watcher under ok == true that no path with ok == true bypasses
+				found := extractOf(wLk, 1)
+				ffn := FactsOf(fn)
+				var cancel ssa.Instruction
+				for _, ci := range allCalls(fn) {
+					cc, ok := ci.(*ssa.Call)
+					if !ok || cc.Common().StaticCallee() != nil || cc.Common().IsInvoke() {
+						continue
+					}
+					if fieldNameOfLoad(resolveCell(stripConv(cc.Common().Value))) == "cancel" && found != nil {
+						if v, k := ffn.At(cc).truth(found); k && v {
+							cancel = cc
+						}
+					}
+				}
+				good := false
+				if cancel != nil {
+					target := func(i ssa.Instruction) bool {
+						if wUpd != nil && i == ssa.Instruction(wUpd) {
+							return true
+						}
+						_, isRet := i.(*ssa.Return)
+						return isRet && fn != wf
+					}
+					good = existsPath(fn, atomEnv{found: true}, target, func(i ssa.Instruction) bool { return i == cancel }) == nil
+				}
+				st := &step{fn: fn, at: at, key: keyInWF(fn, wLk.Index, callOf[fn]), good: good, found: found}
+				if at == nil {
+					st.at = cancel
+				}
+				cancelStep = st
+			}
+			if wUpd != nil {
+				st := &step{fn: fn, at: at, key: keyInWF(fn, wUpd.Key, callOf[fn]), good: true}
+				if at == nil {
+					st.at = wUpd
+				}
+				regStep = st
+			}
 		}
-		// key is reader.ID()
-		kc, _, isC := asCall(resolveCell(stripConv(wLk.Index)))
-		okCancel = okCancel && isC && isCallTo(kc, pkgInt+".Reader.ID")
+		if cancelStep != nil && regStep != nil && cancelStep.good && cancelStep.at != nil && regStep.at != nil &&
+			cancelStep.key != nil && regStep.key != nil && sameVal(cancelStep.key, regStep.key) {
+			okCancel = true
+			switch {
+			case cancelStep.at == regStep.at:
+			case cancelStep.fn == wf:
+				okCancel = existsPath(wf, atomEnv{cancelStep.found: true}, func(i ssa.Instruction) bool { return i == regStep.at }, func(i ssa.Instruction) bool { return i == cancelStep.at }) == nil
+			default:
+				okCancel = mustPassBefore(wf, regStep.at, func(i ssa.Instruction) bool { return i == cancelStep.at })
+			}
+			// key is reader.ID()
+			kc, _, isC := asCall(resolveCell(stripConv(cancelStep.key)))
+			okCancel = okCancel && isC && isCallTo(kc, pkgInt+".Reader.ID")
+		}
 	}
 	c.Obl(okCancel, "C20.R5", "old-watcher-cancelled", P.Pos(wf.Pos()), "an existing watcher for the same reader id is cancelled before the new one is registered", "a superseded watcher for the same file keeps running (not cancelled before re-registration)")
 	// non-positive interval ⇒ no goroutine
